@@ -6,6 +6,8 @@ open UtilModel UtilModel.Keyed
 #print axioms UtilModel.Keyed.kinv_reachable
 #print axioms UtilModel.Keyed.inv3_reachable
 #print axioms UtilModel.Keyed.one_running_per_key
+#print axioms UtilModel.Keyed.kd_reachable
+#print axioms UtilModel.Keyed.C07_obs_one_running
 #print axioms UtilModel.Keyed.removed_cancelled
 #print axioms UtilModel.Keyed.removed_dead
 #print axioms UtilModel.Keyed.removed_never_restarted
